@@ -5,6 +5,7 @@ before that check. That two different keys produce the same tag over the same by
 statement, not excluded by any theorem (for every key there exist messages with any given tag).
 -/
 import Wencry.Proofs.FileLogic
+import Wencry.Proofs.TypedKey
 namespace Wencry.Props.C06
 open Wencry Wencry.Model Wencry.Model.File Wencry.Model.Stdio Wencry.Proofs.FileLogic
 
@@ -31,5 +32,29 @@ theorem rejected_key_writes_nothing (cfg : Cfg) (hH : 1 ≤ cfg.H) (key' : Block
       subst hv
       exact ⟨c, h, rfl⟩
   exact ⟨code, out, hd, hne, (hw hne).1, (hw hne).2⟩
+
+/-! ### the key as the user types it (`-k`, the dialogue)
+The theorems above speak about the sixteen key bytes. Between the user and those bytes stands the base64 decoder with its table
+REGENERATED from valget/base64/tab.h: it must not turn a wrong key text into the right key. -/
+
+/-- the regenerated decode table is injective on the alphabet -/
+theorem decode_table_injective_on_alphabet (c c' : Byte) (h : Base64.isBase64 c = true) (h' : Base64.isBase64 c' = true)
+    (he : Proofs.TypedKey.sextet c = Proofs.TypedKey.sextet c') : c = c' :=
+  Proofs.TypedKey.sextet_injective_on_alphabet c c' h h' he
+
+/-- two accepted key texts that decode to the same key agree in their first 21 symbols and in the two used bits of the 22nd
+    (the four unused bits are RFC 4648's non-canonical encodings, which the validator tolerates) -/
+theorem typed_key_decoding_injective (s s' : Bytes) (h : Base64.isValidB64 s = true) (h' : Base64.isValidB64 s' = true) (k : Bytes)
+    (hd : Base64.getArgsKey s = .ok (some k)) (hd' : Base64.getArgsKey s' = .ok (some k)) :
+    (∀ i, i < 21 → s.getD i 0 = s'.getD i 0) ∧
+      Proofs.TypedKey.sextet (s.getD 21 0) >>> 4 = Proofs.TypedKey.sextet (s'.getD 21 0) >>> 4 :=
+  Proofs.TypedKey.typed_key_decoding_injective s s' h h' k hd hd'
+
+/-- a typed text that differs from the right key's text in one of the first 21 symbols denotes a different key — to which
+    `wrong_key_accepted_only_on_collision` then applies -/
+theorem typed_wrong_text_is_wrong_key (s s' : Bytes) (h : Base64.isValidB64 s = true) (h' : Base64.isValidB64 s' = true) (k k' : Bytes)
+    (hd : Base64.getArgsKey s = .ok (some k)) (hd' : Base64.getArgsKey s' = .ok (some k')) (i : Nat) (hi : i < 21)
+    (hne : s.getD i 0 ≠ s'.getD i 0) : k ≠ k' :=
+  Proofs.TypedKey.typed_wrong_text_is_wrong_key s s' h h' k k' hd hd' i hi hne
 
 end Wencry.Props.C06
